@@ -204,7 +204,7 @@ impl<const BUFFER_CAPACITY: usize> RibbonController<BUFFER_CAPACITY> {
     /// +1.0 at the top end (due to the series resistance) the output will reach or at least come very close to +1.0
     pub fn value(&self) -> f32 {
         // scale the value back to full scale since we loose a tiny bit of range to the high-boundary
-        self.current_val / self.finger_press_high_boundary
+        (self.current_val / self.finger_press_high_boundary).min(1.0)
     }
 
     /// `rib.finger_is_pressing()` is `true` iff the user is pressing on the ribbon.
